@@ -40,13 +40,15 @@ nfix = sum(1 for f in kf if f['kind'] == 'fixed'); nknown = len(kf) - nfix
 findings = '%d defects repaired, %d recorded as known findings.\n\n' % (nfix, nknown) + '\n'.join(lines)
 
 # ---- matrix
-res = {}
+res = {}; hist = {}
 mp = os.path.join(V, 'seeded', 'MATRIX.txt')
 if os.path.exists(mp):
     for line in open(mp):
         m = re.match(r'(\S+) (C\d+) (quick|thorough): (DETECTED|MISSED|BROKEN)(.*)', line.strip())
         if m:
-            res[(m.group(1), m.group(2), m.group(3))] = (m.group(4), m.group(5).strip())
+            k = (m.group(1), m.group(2), m.group(3))
+            hist.setdefault(k, []).append(m.group(4))
+            res[k] = (m.group(4), m.group(5).strip())
 rows = ['| seed | breaks | needs to manifest | check result |', '|---|---|---|---|']
 det = miss = 0
 for d in sorted(glob.glob(os.path.join(V, 'seeded', '*', 'meta.json'))):
@@ -55,7 +57,8 @@ for d in sorted(glob.glob(os.path.join(V, 'seeded', '*', 'meta.json'))):
     for (s, p, tier), (r, rest) in sorted(res.items()):
         if s == name:
             sig = re.search(r'signature: (.{0,90})', rest)
-            outcomes.append('%s %s: %s%s' % (p, tier, r, (' (`' + sig.group(1).strip() + '`)') if sig and r == 'DETECTED' else ''))
+            earlier = [x for x in hist.get((s, p, tier), [])[:-1] if x != r]
+            outcomes.append('%s %s: %s%s%s' % (p, tier, r, (' (`' + sig.group(1).strip() + '`)') if sig and r == 'DETECTED' else '', (' - first run: ' + earlier[0] + ', check strengthened / rebased since') if earlier else ''))
     detected = [o.split(':')[0] for o in outcomes if ': DETECTED' in o]
     m['detected_by'] = ['bin/check %s --tier %s' % tuple(x.split()) for x in detected]
     json.dump(m, open(d, 'w'), indent=1)
@@ -64,7 +67,8 @@ for d in sorted(glob.glob(os.path.join(V, 'seeded', '*', 'meta.json'))):
     elif outcomes:
         miss += 1
     rows.append('| %s | %s | %s | %s |' % (name, prop, m['needs_to_manifest'].replace('|', '\\|')[:260], '<br>'.join(outcomes) if outcomes else 'not run'))
-matrix = '%d seeded changes detected by the check of their property, %d not detected (listed below as MISSED), %d not run.\n\n' % (det, miss, len(rows) - 2 - det - miss) + '\n'.join(rows)
+first_miss = sum(1 for k, v in hist.items() if 'MISSED' in v[:-1] or 'BROKEN' in v[:-1])
+matrix = '%d seeded changes detected by the check of their property, %d not detected (listed below as MISSED), %d not run. %d of the detected ones were missed (or hit a harness limit) on their first run and are detected since the check was strengthened - marked "first run" below.\n\n' % (det, miss, len(rows) - 2 - det - miss, first_miss) + '\n'.join(rows)
 
 p = os.path.join(V, 'DESIGN.md')
 t = open(p).read()
